@@ -86,7 +86,7 @@ def c15_serde_case(args):
              "part": "serde"}
     cov = Coverage()
     for ii, inst in enumerate(instances(schema, tier)):
-        eng = Engine(timeout_ms=30000 if tier == "quick" else 300000, max_paths=2000)
+        eng = Engine(timeout_ms=240000 if tier == "quick" else 600000, max_paths=2000)
 
         def body():
             a = serde.encode(fA, top, inst.value)
@@ -178,7 +178,7 @@ def c15_layout_case(args):
     fA, fB = parse(A.text()), parse(B.text())
     patch(fA, A)
     patch(fB, B)
-    eng = Engine(timeout_ms=30000 if tier == "quick" else 300000, max_paths=2000)
+    eng = Engine(timeout_ms=240000 if tier == "quick" else 600000, max_paths=2000)
 
     def body():
         outs = []
